@@ -274,7 +274,12 @@ pub fn selftest_determinism(seed: u64, n: u64) -> i32 {
         for ci in 0..n {
             let case_seed = crate::rng::mix(crate::rng::mix(seed, crate::explore::str_hash(prop.id)), ci);
             let mut rng = crate::rng::Rng::new(case_seed);
-            let case = Arc::new((prop.gen)(&mut rng, false));
+            let base = (prop.gen)(&mut rng, false);
+            // Fault / drop-point variants are part of what must be deterministic.
+            let variants = (prop.variants)(&base, false);
+            let pick = [0usize, variants.len() / 3, variants.len() / 2, variants.len().saturating_sub(1)];
+            let vi = pick[(ci % 4) as usize].min(variants.len().saturating_sub(1));
+            let case = Arc::new(variants.into_iter().nth(vi).unwrap_or(base));
             for k in 0..2u32 {
                 let spec = crate::explore::portfolio(case_seed, 1 + k + (ci as u32 % 7), 300, false);
                 let a = engine::execute(&case, &spec);
